@@ -154,17 +154,44 @@ def fexpr(e, env):
     if isinstance(e, ast.Call) and isinstance(e.func, ast.Name) and e.func.id == "abs" \
             and len(e.args) == 1 and isinstance(e.args[0], ast.BinOp) \
             and isinstance(e.args[0].op, ast.Sub):
-        return f"(absdiff {fexpr(e.args[0].left, env)} {fexpr(e.args[0].right, env)})"
-    if isinstance(e, ast.Subscript) and isinstance(e.value, ast.Name) and e.value.id == "E" \
+        return f"(O.absdiff {fexpr(e.args[0].left, env)} {fexpr(e.args[0].right, env)})"
+    if isinstance(e, ast.Subscript) and isinstance(e.value, ast.Name) \
+            and e.value.id == env.get("@array") \
             and isinstance(e.slice, ast.Tuple) and len(e.slice.elts) == 2:
         a, b = e.slice.elts
-        return f"(E {int_expr(a, env)} {int_expr(b, env)})"
+        return f"({e.value.id} {int_expr(a, env)} {int_expr(b, env)})"
     raise Shape("float expression not translatable: " + ast.unparse(e))
+
+
+def sup_fold(f, env, tmp, what):
+    """the `for l in range(<dim>)` loop of the supremum metric: statements -> Lean `let`s"""
+    lets = []
+    for st in f.body:
+        if isinstance(st, ast.Assign) and len(st.targets) == 1 and \
+                isinstance(st.targets[0], ast.Name) and st.targets[0].id == tmp:
+            lets.append(f"let {tmp} := {fexpr(st.value, env)}")
+            env[tmp] = tmp
+        elif isinstance(st, ast.If) and not st.orelse and len(st.body) == 1 and \
+                isinstance(st.body[0], ast.Assign) and ast.unparse(st.body[0].targets[0]) == "diff" \
+                and isinstance(st.test, ast.Compare) and len(st.test.ops) == 1:
+            op = st.test.ops[0]
+            a, b = fexpr(st.test.left, env), fexpr(st.test.comparators[0], env)
+            if isinstance(op, ast.Gt):
+                c = f"O.gt {a} {b}"
+            elif isinstance(op, ast.Lt):
+                c = f"O.gt {b} {a}"
+            else:
+                raise Shape(what + ": comparison " + ast.unparse(st.test))
+            lets.append(f"let diff := if {c} then {fexpr(st.body[0].value, env)} else diff")
+        else:
+            raise Shape(what + ": statement " + ast.unparse(st))
+    return lets
 
 
 def metric_supremum():
     no, header, body = block_after(r"^\s+inline DFIELD_t metric_supremum\(")
     need(param_names(header) == ["I", "j", "dim", "E"], "metric_supremum: parameters changed")
+    need("DFIELD_t[:,:] E" in header, "metric_supremum: type of E")
     cdef, txt = strip_cdef(body)
     init = [c for c in cdef if re.match(r"DFIELD_t\b", c)]
     need(len(init) == 1, "metric_supremum: cdef line of diff")
@@ -176,34 +203,67 @@ def metric_supremum():
     f = tree[0]
     need(ast.unparse(f.target) == "l" and ast.unparse(f.iter) == "range(dim)" and not f.orelse,
          "metric_supremum: loop header")
-    env = {"I": "I", "j": "j", "l": "l", "diff": "diff"}
-    lets = []
-    for st in f.body:
-        if isinstance(st, ast.Assign) and len(st.targets) == 1 and \
-                isinstance(st.targets[0], ast.Name) and st.targets[0].id == "tmp_diff":
-            lets.append(f"let tmp_diff := {fexpr(st.value, env)}")
-            env["tmp_diff"] = "tmp_diff"
-        elif isinstance(st, ast.If) and not st.orelse and len(st.body) == 1 and \
-                isinstance(st.body[0], ast.Assign) and ast.unparse(st.body[0].targets[0]) == "diff" \
-                and isinstance(st.test, ast.Compare) and len(st.test.ops) == 1:
-            op = st.test.ops[0]
-            a, b = fexpr(st.test.left, env), fexpr(st.test.comparators[0], env)
-            if isinstance(op, ast.Gt):
-                c = f"gtV {a} {b}"
-            elif isinstance(op, ast.Lt):
-                c = f"gtV {b} {a}"
-            else:
-                raise Shape("metric_supremum: comparison " + ast.unparse(st.test))
-            lets.append(f"let diff := if {c} then {fexpr(st.body[0].value, env)} else diff")
-        else:
-            raise Shape("metric_supremum: statement " + ast.unparse(st))
-    src = "\n".join("--   " + l for l in txt.strip().split("\n"))
+    env = {"I": "I", "j": "j", "l": "l", "diff": "diff", "@array": "E"}
+    lets = sup_fold(f, env, "tmp_diff", "metric_supremum")
     return (f"/- numerics.pyx:{no}  {header}\n{txt.strip()}\n-/\n"
-            "def metric_supremum (I j dim : Int) (E : Int → Int → V) : V :=\n"
-            "  (List.range dim.toNat).foldl (fun (diff : V) (l : Nat) =>\n"
+            "def metric_supremum {α : Type} (O : FOps α) (I j dim : Int) (E : Int → Int → α) : α :=\n"
+            "  (List.range dim.toNat).foldl (fun (diff : α) (l : Nat) =>\n"
             "    let l : Int := l\n" +
             "".join(f"    {x}\n" for x in lets) +
-            "    diff) (some 0)\n")
+            "    diff) O.zero\n")
+
+
+def supremum_matrix():
+    """`_supremum_distance_matrix_rp` (the matrix mode's distances; C07 anchors it, C08 needs its
+    float operations next to `metric_supremum`'s): the `l` loop is translated statement by
+    statement; the two outer loops and the symmetric store are checked literally and emitted as the
+    closed form `distance[a, b]` (np.zeros elsewhere)."""
+    no, header, body = block_after(r"^def _supremum_distance_matrix_rp\(")
+    need(param_names(header) == ["n_time", "dim", "embedding"],
+         "_supremum_distance_matrix_rp: parameters changed")
+    need("ndarray[DFIELD_t, ndim=2] embedding" in header, "_supremum_distance_matrix_rp: type of embedding")
+    cdef, txt = strip_cdef(body)
+    need("int j, k, l, T = n_time, D = dim" in cdef and "DFIELD_t temp_diff, diff" in cdef,
+         "_supremum_distance_matrix_rp: cdef lines " + str(cdef))
+    need(any(re.match(r"ndarray\[DFIELD_t, ndim=2, mode='c'\] distance = \\?$", c) for c in cdef) and
+         "np.zeros((n_time, n_time), dtype=DFIELD)" in cdef,
+         "_supremum_distance_matrix_rp: distance = np.zeros((n_time, n_time)) expected: " + str(cdef))
+    tree = ast.parse(txt).body
+    need(len(tree) == 2 and isinstance(tree[0], ast.For) and isinstance(tree[1], ast.Return)
+         and ast.unparse(tree[1].value) == "distance", "_supremum_distance_matrix_rp: for + return")
+    fj = tree[0]
+    need(ast.unparse(fj.target) == "j" and ast.unparse(fj.iter) == "range(T)" and not fj.orelse
+         and len(fj.body) == 1 and isinstance(fj.body[0], ast.For),
+         "_supremum_distance_matrix_rp: outer loop")
+    fk = fj.body[0]
+    need(ast.unparse(fk.target) == "k" and ast.unparse(fk.iter) == "range(j)" and not fk.orelse
+         and len(fk.body) == 3, "_supremum_distance_matrix_rp: middle loop")
+    a0, fl, st = fk.body
+    need(isinstance(a0, ast.Assign) and ast.unparse(a0) == "diff = 0",
+         "_supremum_distance_matrix_rp: diff = 0")
+    need(isinstance(fl, ast.For) and ast.unparse(fl.target) == "l" and
+         ast.unparse(fl.iter) == "range(D)" and not fl.orelse, "_supremum_distance_matrix_rp: l loop")
+    need(isinstance(st, ast.Assign) and
+         sorted(ast.unparse(t) for t in st.targets) == ["distance[j, k]", "distance[k, j]"]
+         and ast.unparse(st.value) == "diff", "_supremum_distance_matrix_rp: symmetric store")
+    env = {"j": "j", "k": "k", "l": "l", "diff": "diff", "@array": "embedding"}
+    lets = sup_fold(fl, env, "temp_diff", "_supremum_distance_matrix_rp")
+    return (f"/- numerics.pyx:{no}  {header}\n{txt.strip()}\n-/\n"
+            "/-- the value stored into `distance[j, k]` and `distance[k, j]` -/\n"
+            "def supremum_rp_entry {α : Type} (O : FOps α) (j k D : Int) "
+            "(embedding : Int → Int → α) : α :=\n"
+            "  (List.range D.toNat).foldl (fun (diff : α) (l : Nat) =>\n"
+            "    let l : Int := l\n" +
+            "".join(f"    {x}\n" for x in lets) +
+            "    diff) O.zero\n\n"
+            "/-- `distance[a, b]` on return: `for j in range(T): for k in range(j):` stores both "
+            "triangles,\nthe diagonal keeps `np.zeros` -/\n"
+            "def _supremum_distance_matrix_rp {α : Type} (O : FOps α) (n_time dim : Int) "
+            "(embedding : Int → Int → α)\n    (a b : Int) : α :=\n"
+            "  let T := n_time\n  let D := dim\n"
+            "  if 0 ≤ b ∧ b < a ∧ a < T then supremum_rp_entry O a b D embedding\n"
+            "  else if 0 ≤ a ∧ a < b ∧ b < T then supremum_rp_entry O b a D embedding\n"
+            "  else O.zero\n")
 
 
 # ---------------------------------------------------------------------------------------------
@@ -270,9 +330,9 @@ class Body:
                      ast.unparse(x))
                 return names[x.id]
             if isinstance(op, ast.Lt):
-                return f"(ltV {val(l)} {val(r)})"
+                return f"(O.lt {val(l)} {val(r)})"
             if isinstance(op, ast.Gt):
-                return f"(ltV {val(r)} {val(l)})"
+                return f"(O.lt {val(r)} {val(l)})"
         raise Shape("cell value not translatable: " + ast.unparse(e))
 
     def stmts(self, sts, ind):
@@ -361,14 +421,14 @@ def line_dist():
     out.append("/-- the loop-carried variables of `_line_dist` -/\n"
                "structure LS where\n  k : Nat\n  mf : Bool\n  line : Bool\n  hist : List Nat\n")
     out.append("/-- one iteration of the `for j` loop -/\n"
-               "def innerBody (R : Int → Int → Bool) (metric : Int → Int → V) (eps : V) "
-               "(dimZero black : Bool)\n    (M : Int → Bool) (missing_values : Bool) "
+               "def innerBody {α : Type} (O : FOps α) (R : Int → Int → Bool) (metric : Int → Int → α) "
+               "(eps : α) (dimZero black : Bool)\n    (M : Int → Bool) (missing_values : Bool) "
                "(ij2I : Int → Int → Int → Int) (N i j : Int) (s : LS) : LS :=\n" + "\n".join(ib) + "\n")
     out.append("/-- the statements after the inner loop -/\n"
                "def afterInner (s : LS) : LS :=\n" + "\n".join(after) + "\n")
     out.append(
-        "def lineDist (n_time : Int) (hist : List Nat) (R : Int → Int → Bool) "
-        "(metric : Int → Int → V) (eps : V)\n    (dimZero black : Bool) (M : Int → Bool) "
+        "def lineDist {α : Type} (O : FOps α) (n_time : Int) (hist : List Nat) (R : Int → Int → Bool) "
+        "(metric : Int → Int → α) (eps : α)\n    (dimZero black : Bool) (M : Int → Bool) "
         "(missing_values : Bool) (i2J : Int → Int → Int)\n    (ij2I : Int → Int → Int → Int) "
         "(skip_main : Bool) : List Nat :=\n"
         "  let s : LS := { k := 0, mf := false, line := false, hist := hist }\n"
@@ -377,7 +437,7 @@ def line_dist():
         f"  ((List.range ({outer_bound}).toNat).foldl (fun (s : LS) (i : Nat) =>\n"
         "    let i : Int := i\n"
         f"    afterInner ((List.range ({inner_bound}).toNat).foldl (fun (s : LS) (j : Nat) =>\n"
-        "      innerBody R metric eps dimZero black M missing_values ij2I N i (j : Int) s) s)) s).hist\n")
+        "      innerBody O R metric eps dimZero black M missing_values ij2I N i (j : Int) s) s)) s).hist\n")
     return "\n".join(out)
 
 
@@ -510,13 +570,13 @@ def wrappers():
             need(a["M"] == "M_null", f"{w}: M argument")
         need(a["i2J"] in ("i2J_vertline", "i2J_diagline") and
              a["ij2I"] in ("ij2I_vertline", "ij2I_diagline"), f"{w}: line type {a}")
-        lp = ["(n_time : Int)", "(hist : List Nat)"]
-        lp.append("(E : Int → Int → V) (eps : V) (dim : Int)" if seq else "(R : Int → Int → Bool)")
+        lp = (["{α : Type} (O : FOps α)"] if seq else []) + ["(n_time : Int)", "(hist : List Nat)"]
+        lp.append("(E : Int → Int → α) (eps : α) (dim : Int)" if seq else "(R : Int → Int → Bool)")
         if a["missing_values"] == "True":
             lp.append("(M : Int → Bool)")
-        call = ["n_time", "hist",
+        call = ["O" if seq else "vOps", "n_time", "hist",
                 "(fun _ _ => false)" if seq else "R",
-                "(fun I j => metric_supremum I j dim E)" if seq else "(fun _ _ => none)",
+                "(fun I j => metric_supremum O I j dim E)" if seq else "(fun _ _ => none)",
                 "eps" if seq else "(some 0)",
                 "false" if seq else "true",
                 mv[a["black"]],
@@ -531,11 +591,14 @@ def main():
     parts = ["-- GENERATED by translate/gen_C08.py from src/pyunicorn/timeseries/_ext/numerics.pyx"
              " -- do not edit",
              "import Pyunicorn.Model.Recurrence",
+             "import Pyunicorn.Model.LineDistFloat",
              "namespace Pyunicorn.Generated.StructC08",
-             "open Pyunicorn.Recurrence (V absdiff gtV ltV)\n"]
+             "open Pyunicorn.Recurrence (V)",
+             "open Pyunicorn.LineDist (FOps vOps)\n"]
     for name, args, src, body in inline_helpers():
         parts.append(f"/- {src} -/\ndef {name} ({' '.join(args)} : Int) : Int := {body}\n")
     parts.append(metric_supremum())
+    parts.append(supremum_matrix())
     parts.append(line_dist())
     parts.append(wrappers())
     parts.append(rejection())
